@@ -595,6 +595,7 @@ func TestPropRemoval(t *testing.T) {
 				rec.KnownHit(id, c)
 				return
 			}
+			// development aid (never set by the driver): keep searching behind a class that is not listed yet
 			if tol := os.Getenv("VERIF_C20_TOLERATE"); tol != "" && class != "" && strings.Contains(tol, class) {
 				rec.Count("tolerated:"+class, 1)
 				return
